@@ -20,6 +20,7 @@ HX int h_fftfir_c(const double* h, int nh, const double* x, int n1, int n2, doub
 HX int h_xcorr_r(const double* a, int n1, const double* b, int n2, double* y) { H_TRY arr_real r = xcorr(mk_real(a, n1), mk_real(b, n2)); put_real(r, y); return r.size(); H_END }
 HX int h_xcorr_c(const double* a, int n1, const double* b, int n2, double* y) { H_TRY arr_cmplx r = xcorr(mk_cmplx(a, n1), mk_cmplx(b, n2)); put_cmplx(r, y); return r.size(); H_END }
 HX int h_xcorr_auto_r(const double* a, int n1, double* y) { H_TRY arr_real r = xcorr(mk_real(a, n1)); put_real(r, y); return r.size(); H_END }
+HX int h_xcorr_auto_c(const double* a, int n1, double* y) { H_TRY arr_cmplx r = xcorr(mk_cmplx(a, n1)); put_cmplx(r, y); return r.size(); H_END }
 HX int h_ma_r(int n, const double* x, int n1, int n2, double* y) {
     H_TRY MAFilterR f(n); arr_real r1 = f(mk_real(x, n1)); put_real(r1, y); int k = r1.size();
     for (int i = 0; i < n2; ++i) { y[k++] = f(x[n1 + i]); } return k; H_END
